@@ -771,6 +771,17 @@ async fn case_handshake(ctl: &Matter<'_>, fab: NonZeroU8, peer_node: u64) -> Res
     CaseInitiator::perform(exchange, &crypto, fab, peer_node).await
 }
 
+/// wait until no handshake is in flight any more (the responder finishes after the initiator)
+async fn settle(dev: &Matter<'_>, ctl: &Matter<'_>) {
+    for _ in 0..2000 {
+        let busy = |m: &Matter<'_>| m.with_state(|state| state.verif_sessions().iter().any(|s| s.verif_snapshot().reserved));
+        if !busy(dev) && !busy(ctl) {
+            return;
+        }
+        embassy_time::Timer::after(embassy_time::Duration::from_millis(1)).await;
+    }
+}
+
 enum Next {
     Done,
     Boot(usize, BTreeMap<u16, Vec<u8>>),
@@ -1134,6 +1145,7 @@ fn run_incarnation(base: &Base, g: &mut Ghost, blobs: &BTreeMap<u16, Vec<u8>>, o
                         } else {
                             let before = session_ids(&ctl);
                             let res = case_handshake(&ctl, NonZeroU8::new(*r as u8 + 1).unwrap(), DEV_NODE + *r as u64).await;
+                            settle(&dev, &ctl).await;
                             remove_plaintext(&dev);
                             remove_plaintext(&ctl);
                             match res {
@@ -1182,6 +1194,7 @@ fn run_incarnation(base: &Base, g: &mut Ghost, blobs: &BTreeMap<u16, Vec<u8>>, o
                                 // the destination id names no fabric of the device (unknown node id): if the
                                 // device declines the resumption, the full handshake it falls back to fails
                                 let res = e2e::with_timeout(if wire { 3000 } else { 15000 }, case_handshake(&ctl, cfab, bogus)).await;
+                                settle(&dev, &ctl).await;
                                 remove_plaintext(&dev);
                                 remove_plaintext(&ctl);
                                 ctl.with_state(|state| state.resumption.remove_by_peer(cfab, bogus));
